@@ -312,3 +312,283 @@ Proof.
   all: try (left; auto; fail).
   all: try (destruct J4 as (t' & U1 & U2); exists t'; auto; fail).
 Qed.
+
+(* ------------------------------------------------------------------ the C25 invariant *)
+Definition eff (c : cfg) (m : mon25) (k : nat) : Prop :=
+  exists t, ty_at c k = Some t /\ (v_last m = Some t \/ In t (v_cands m)).
+
+Definition pre25 (c : cfg) (s : state) (m : mon25) : Prop :=
+  v_target m = target_of s /\ in_range c s /\
+  (0 < v_pending m -> v_last m <> None) /\
+  (v_last m <> None -> eff c m (selected s) /\ eff c m (proposal s)).
+
+Definition core25 (c : cfg) (s : state) (m : mon25) : Prop :=
+  pre25 c s m /\ (v_last m <> None -> j_ok c s).
+
+Definition inv25 (c : cfg) (s : state) (m : mon25) : Prop := v_void m = true \/ core25 c s m.
+
+Lemma pdu_code_inj a b : pdu_code a = pdu_code b -> a = b.
+Proof. destruct a, b; cbn; intros H; try reflexivity; discriminate. Qed.
+
+Lemma find_code l t : In t l -> find (fun t' => pdu_code t' =? pdu_code t) l = Some t.
+Proof.
+  induction l as [|h l IH]; intros H; [destruct H|]. cbn [find].
+  destruct (pdu_code h =? pdu_code t) eqn:E.
+  - apply N.eqb_eq in E. apply pdu_code_inj in E. congruence.
+  - destruct H as [->|H]; [rewrite N.eqb_refl in E; discriminate|auto].
+Qed.
+
+Lemma types_of_nonempty c : types_of c <> [].
+Proof. unfold types_of. destruct (c_types c); discriminate. Qed.
+
+Lemma ty_at_in c k t : ty_at c k = Some t -> In t (types_of c).
+Proof.
+  unfold ty_at. destruct (is_multi c).
+  - apply nth_error_In.
+  - intros H; inversion H. pose proof (types_of_nonempty c). destruct (types_of c); [congruence|]. left; auto.
+Qed.
+
+Lemma type_of_code_at c k t : ty_at c k = Some t -> type_of_code c (pdu_code t) = Some t.
+Proof. intros H. unfold type_of_code. apply find_code. eapply ty_at_in; eauto. Qed.
+
+Ltac vsimpl := cbn [v_void v_pending v_last v_cands v_target answer25 void25 fst snd].
+
+Lemma after_handler c s m s' x :
+  pre25 c s m ->
+  d_addr s' = d_addr s -> d_valid s' = d_valid s -> proposal s' = proposal s ->
+  selected s' = (if is_multi c then proposal s else selected s) ->
+  j_ok c s' -> sched_code_ok c s' x ->
+  fst (on_sched25 c m x) = Ok /\ core25 c s' (snd (on_sched25 c m x)).
+Proof.
+  intros (PT & PR & PP & PE) A1 A2 A3 A4 J SC.
+  assert (TT : target_of s' = target_of s) by (unfold target_of; rewrite A1, A2; auto).
+  assert (R' : in_range c s').
+  { intros M. specialize (PR M). rewrite A3, A4, M. tauto. }
+  assert (TY : ty_at c (proposal s') = ty_at c (selected s')).
+  { rewrite A3, A4. unfold ty_at. destruct (is_multi c); reflexivity. }
+  destruct x as [|ch d code]; cbn [on_sched25 sched_code_ok] in *.
+  - cbn [fst snd]. split; auto. split; [|auto].
+    refine (conj _ (conj R' (conj PP _))); [congruence|].
+    intros L. specialize (PE L). destruct PE as [E1 E2].
+    assert (E2' : eff c m (proposal s')) by (rewrite A3; auto).
+    split; auto. unfold eff in *. rewrite <- TY. auto.
+  - destruct SC as (t & T1 & ->). rewrite sel_type_at in T1.
+    rewrite (type_of_code_at c _ t T1). cbn [fst snd]. split; auto.
+    split; [|auto]. unfold pre25, eff. vsimpl.
+    refine (conj _ (conj R' (conj _ _))); [congruence|discriminate|].
+    intros _. rewrite TY, T1. split; exists t; auto.
+Qed.
+
+Lemma pre25_answer c s m : pre25 c s m -> 0 < v_pending m -> pre25 c s (answer25 m).
+Proof.
+  intros (PT & PR & PP & PE) H. unfold pre25, eff in *. vsimpl. refine (conj PT (conj PR (conj _ PE))). auto.
+Qed.
+
+Lemma addr_same_refl a : addr_same a a = true.
+Proof.
+  unfold addr_same. rewrite (proj2 (bytes_eqb_eq _ _) eq_refl). destruct (arandom a); reflexivity.
+Qed.
+
+Lemma existsb_in (A : Type) (f : A -> bool) l x : In x l -> f x = true -> existsb f l = true.
+Proof. intros. apply existsb_exists. eauto. Qed.
+
+Definition op_bytes_ok (o : op) : Prop :=
+  match o with Rx p | ConnReq p | ScanReq p => bytes_ok p | _ => True end.
+
+Lemma in_effect_sel c s m t :
+  pre25 c s m -> v_last m <> None -> sel_type c s = Some t -> In t (in_effect m).
+Proof.
+  intros (PT & PR & PP & PE) L T. destruct (PE L) as [(t' & E1 & E2) _]. rewrite sel_type_at in T.
+  assert (t' = t) by congruence. subst. unfold in_effect. destruct (v_last m) as [l|]; [|congruence].
+  destruct E2 as [E2|E2]; [left; congruence|right; auto].
+Qed.
+
+Lemma core25_frame c s s1 m : core25 c s m -> same25 s s1 -> core25 c s1 m.
+Proof.
+  intros ((PT & PR & PP & PE) & J) (E1 & E2 & E3 & E4 & E5 & E6).
+  unfold core25, pre25, in_range, j_ok, target_of in *. rewrite !sel_type_at in *.
+  rewrite E1, E2, E3, E4, E5, E6. auto.
+Qed.
+
+Lemma pre25_frame c s s1 m : pre25 c s m -> same25 s s1 -> pre25 c s1 m.
+Proof.
+  intros (PT & PR & PP & PE) (E1 & E2 & E3 & E4 & E5 & E6).
+  unfold pre25, in_range, target_of in *. rewrite E1, E2, E4, E5. auto.
+Qed.
+
+(* a (re)start *)
+Lemma restart25 c s0 s1 m1 :
+  pre25 c s1 m1 ->
+  match lift (handle_start_advertising c s1) s0 with
+  | (s', OSched x) => fst (on_sched25 c m1 x) = Ok /\ core25 c s' (snd (on_sched25 c m1 x))
+  | (_, OFault) => True
+  | _ => False
+  end.
+Proof.
+  intros P. destruct (handle_start_advertising c s1) as [[s' x]|] eqn:H; cbn [lift]; auto.
+  pose proof P as (PT & PR & PP & PE).
+  apply start_effect25 in H; auto. destruct H as (A1 & A2 & A3 & A4 & J & SC).
+  apply after_handler with (s := s1); auto.
+Qed.
+
+Lemma void25_inv c s m : inv25 c s (void25 m).
+Proof. left; reflexivity. Qed.
+
+Lemma step25_ok c s m o :
+  op_bytes_ok o -> inv25 c s m ->
+  fst (mstep25 c m o (snd (step c s o))) = Ok /\
+  inv25 c (fst (step c s o)) (snd (mstep25 c m o (snd (step c s o)))).
+Proof.
+  intros OB I.
+  destruct (v_void m) eqn:V.
+  { unfold mstep25. rewrite V. cbn [fst snd]. split; auto. left; auto. }
+  destruct I as [I|C]; [congruence|].
+  pose proof C as (P & J). pose proof P as (PT & PR & PP & PE).
+  unfold mstep25. rewrite V.
+  destruct o; cbn [step].
+  - (* LStart *)
+    pose proof (restart25 c s s m P) as H.
+    destruct (lift (handle_start_advertising c s) s) as [s' [x| | | | |]]; try contradiction; cbn [fst snd].
+    + destruct H as [H1 H2]. split; auto. right; auto.
+    + split; auto. apply void25_inv.
+  - (* LStop *)
+    cbn [fst snd on_sched25]. split; auto. right. apply core25_frame with (s := s); auto.
+    unfold end_of_advertising_events, same25. destruct (c_manual c); psimpl; repeat split.
+  - (* Timeout *)
+    destruct (handle_adv_timeout c s) as [[s' x]|] eqn:H; cbn [lift fst snd]; [|split; auto; apply void25_inv].
+    destruct (v_pending m =? 0) eqn:Z; cbn [fst snd]; [split; auto; apply void25_inv|].
+    assert (L : v_last m <> None) by (apply PP; lia).
+    apply timeout_effect25 in H; auto. destruct H as (A1 & A2 & A3 & A4 & J' & SC).
+    destruct (after_handler c s (answer25 m) s' x (pre25_answer c s m P ltac:(lia)) A1 A2 A3 A4 J' SC) as [H1 H2].
+    split; auto. right; auto.
+  - (* Rx *)
+    cbn [op_bytes_ok] in OB.
+    destruct (accepts c s p) eqn:ACC.
+    + cbn [fst snd]. destruct (v_pending m =? 0) eqn:Z; cbn [fst snd]; [split; auto; apply void25_inv|].
+      assert (L : v_last m <> None) by (apply PP; lia).
+      rewrite accepts_spec in ACC by auto. destruct (sel_type c s) as [t|] eqn:T; [|discriminate].
+      rewrite (remote_is_initiator _ _ OB), addr_same_refl, andb_true_r.
+      rewrite (existsb_in _ _ _ t (in_effect_sel c s m t P L T)); [|rewrite PT; auto].
+      cbn [fst snd]. split; auto. right. split; [apply pre25_answer; auto; lia|auto].
+    + destruct (handle_adv_timeout c s) as [[s' x]|] eqn:H; cbn [fst snd]; [|split; auto; apply void25_inv].
+      destruct (v_pending m =? 0) eqn:Z; cbn [fst snd]; [split; auto; apply void25_inv|].
+      assert (L : v_last m <> None) by (apply PP; lia).
+      rewrite accepts_spec in ACC by auto.
+      assert (EX : existsb (fun t => negb (may_connect_b (c_off c) (c_own c) (c_filter c) (v_target m) t p)) (in_effect m) = true).
+      { destruct (sel_type c s) as [t|] eqn:T.
+        - apply existsb_in with (x := t); [eapply in_effect_sel; eauto|]. rewrite PT, ACC. reflexivity.
+        - exfalso. rewrite sel_type_at in T. destruct (ty_at_some c (selected s)) as [t E]; [apply PR|congruence]. }
+      rewrite EX.
+      apply timeout_effect25 in H; auto. destruct H as (A1 & A2 & A3 & A4 & J' & SC).
+      destruct (after_handler c s (answer25 m) s' x (pre25_answer c s m P ltac:(lia)) A1 A2 A3 A4 J' SC) as [H1 H2].
+      split; auto. right; auto.
+  - (* Start *)
+    destruct (negb (c_manual c)); cbn [fst snd]; [split; auto; apply void25_inv|].
+    set (s1 := set_ss s (ss_started s) true 0).
+    assert (S1 : same25 s s1) by (unfold s1, same25; psimpl; repeat split).
+    destruct (negb (ss_enabled s) && ss_started s).
+    + pose proof (restart25 c s s1 m (pre25_frame _ _ _ _ P S1)) as H.
+      destruct (lift (handle_start_advertising c s1) s) as [s' [x| | | | |]]; try contradiction; cbn [fst snd].
+      * destruct H as [H1 H2]. split; auto. right; auto.
+      * split; auto. apply void25_inv.
+    + cbn [fst snd on_sched25]. split; auto. right. apply core25_frame with (s := s); auto.
+  - (* StartN *)
+    destruct (negb (c_manual c)); cbn [fst snd]; [split; auto; apply void25_inv|].
+    destruct (k =? 0); cbn [fst snd]; [split; auto; apply void25_inv|].
+    set (s1 := set_ss s (ss_started s) true k).
+    assert (S1 : same25 s s1) by (unfold s1, same25; psimpl; repeat split).
+    destruct (negb (ss_enabled s) && ss_started s).
+    + pose proof (restart25 c s s1 m (pre25_frame _ _ _ _ P S1)) as H.
+      destruct (lift (handle_start_advertising c s1) s) as [s' [x| | | | |]]; try contradiction; cbn [fst snd].
+      * destruct H as [H1 H2]. split; auto. right; auto.
+      * split; auto. apply void25_inv.
+    + cbn [fst snd on_sched25]. split; auto. right. apply core25_frame with (s := s); auto.
+  - (* Stop *)
+    destruct (negb (c_manual c)); cbn [fst snd on_sched25]; split; auto; try apply void25_inv.
+    right. apply core25_frame with (s := s); auto. unfold same25; psimpl; repeat split.
+  - (* AddCh *)
+    destruct (negb (c_varmap c)); cbn [fst snd]; [split; auto; apply void25_inv|].
+    destruct (negb (in_adv_channels ch)); cbn [fst snd on_sched25]; split; auto; try apply void25_inv.
+    right. apply core25_frame with (s := s); auto. unfold same25; psimpl; repeat split.
+  - (* RmCh *)
+    destruct (negb (c_varmap c)); cbn [fst snd]; [split; auto; apply void25_inv|].
+    destruct (negb (in_adv_channels ch)); cbn [fst snd on_sched25]; split; auto; try apply void25_inv.
+    right. apply core25_frame with (s := s); auto. unfold same25; psimpl; repeat split.
+  - (* IvalMs *)
+    destruct (negb (c_varival c)); cbn [fst snd on_sched25]; split; auto; try apply void25_inv.
+    right. apply core25_frame with (s := s); auto.
+    destruct ((20 <=? ms) && (ms <=? 10240)); unfold same25; psimpl; repeat split.
+  - (* IvalUs *)
+    destruct (negb (c_varival c)); cbn [fst snd on_sched25]; split; auto; try apply void25_inv.
+    right. apply core25_frame with (s := s); auto.
+    destruct ((20000 <=? us) && (us <=? 10240000)); unfold same25; psimpl; repeat split.
+  - (* DAddr *)
+    destruct (negb (has_directed c)); cbn [fst snd]; [split; auto; apply void25_inv|].
+    set (valid := negb (addr_eqb a zero_addr)).
+    set (s1 := set_daddr s a valid).
+    set (m1 := mkm25 false (v_pending m) (v_last m) (v_cands m) (if addr_same a zero_addr then None else Some a)).
+    assert (P1 : pre25 c s1 m1).
+    { unfold pre25, in_range, eff, target_of, s1, m1, valid in *. vsimpl. psimpl.
+      refine (conj _ (conj PR (conj PP PE))).
+      change (addr_same a zero_addr) with (addr_eqb a zero_addr). destruct (addr_eqb a zero_addr); reflexivity. }
+    destruct (negb (d_valid s) && valid && d_started s) eqn:ST.
+    + pose proof (restart25 c s s1 m1 P1) as H.
+      destruct (lift (handle_start_advertising c s1) s) as [s' [x| | | | |]]; try contradiction; cbn [fst snd].
+      * destruct H as [H1 H2]. split; auto. right; auto.
+      * split; auto. apply void25_inv.
+    + cbn [fst snd on_sched25]. split; auto. right. split; auto.
+      unfold m1. vsimpl. intros L. specialize (J L). unfold j_ok, s1 in *. rewrite !sel_type_at in *. psimpl.
+      destruct J as [J|(J1 & J2 & J3)]; auto.
+      rewrite J2, J3 in ST. cbn [negb andb] in ST. rewrite andb_true_r in ST. unfold valid in *. rewrite ST. auto.
+  - (* Chg *)
+    destruct (is_multi c && Nat.ltb k (length (types_of c))) eqn:G; cbn [fst snd]; [|split; auto; apply void25_inv].
+    apply andb_prop in G as [G1 G2]. apply Nat.ltb_lt in G2.
+    destruct (nth_error (types_of c) k) as [t|] eqn:N; [|apply nth_error_None in N; lia].
+    split; auto. right.
+    assert (TK : ty_at c k = Some t) by (unfold ty_at; rewrite G1; auto).
+    unfold core25, pre25, in_range, eff, target_of, j_ok in *. rewrite !sel_type_at in *. vsimpl. psimpl.
+    refine (conj (conj PT (conj _ (conj PP _))) J).
+    + intros M. specialize (PR M). tauto.
+    + intros L. destruct (PE L) as [(t1 & E1 & E2) _]. split.
+      * exists t1. split; auto. destruct E2; auto. right. apply in_or_app. auto.
+      * exists t. split; auto. right. apply in_or_app. right. left. auto.
+  - (* DataChanged *)
+    cbn [fst snd on_sched25]. split; auto. right. apply core25_frame with (s := s); auto.
+    unfold same25; psimpl; repeat split.
+  - (* ConnReq *)
+    cbn [op_bytes_ok] in OB. cbn [fst snd]. rewrite valid_connect_base_spec by auto.
+    rewrite (proj2 (eqb_bool_eq _ _) eq_refl). split; auto. right; auto.
+  - (* ScanReq *)
+    cbn [op_bytes_ok] in OB. cbn [fst snd]. rewrite valid_scan_spec by auto.
+    rewrite (proj2 (eqb_bool_eq _ _) eq_refl). split; auto. right; auto.
+Qed.
+
+Lemma multi_length c : is_multi c = true -> (2 <= length (types_of c))%nat.
+Proof.
+  unfold is_multi, types_of. intros H. apply Nat.leb_le in H. destruct (c_types c); cbn in *; lia.
+Qed.
+
+Lemma init_inv25 c : inv25 c (init c) (minit25 c).
+Proof.
+  right. unfold core25, pre25, in_range, minit25, init, target_of. vsimpl. psimpl.
+  split; [|intros H; congruence].
+  refine (conj eq_refl (conj _ (conj _ _))).
+  - intros M. apply multi_length in M. lia.
+  - intros H. exfalso. revert H. apply N.lt_irrefl.
+  - intros H; congruence.
+Qed.
+
+Lemma monitor25_from_ok c ops :
+  Forall op_bytes_ok ops ->
+  forall s m pos, inv25 c s m -> monitor_from (mstep25 c) m pos (run c s ops) = None.
+Proof.
+  induction 1 as [|o t Ho Ht IH]; intros s m pos I; cbn [run]; [reflexivity|].
+  pose proof (step25_ok c s m o Ho I) as H.
+  destruct (step c s o) as [s' r]. cbn [fst snd] in H. cbn [monitor_from].
+  destruct (mstep25 c m o r) as [v m']. cbn [fst snd] in H. destruct H as [-> I']. apply IH; auto.
+Qed.
+
+Theorem monitor25_accepts_model c ops :
+  Forall op_bytes_ok ops -> monitor25 c (run c (init c) ops) = None.
+Proof. intros H. apply monitor25_from_ok; auto. apply init_inv25. Qed.
+Print Assumptions monitor25_accepts_model.
